@@ -2,6 +2,7 @@ pub mod alloc_count;
 pub mod common;
 pub mod engine;
 pub mod f2;
+pub mod f3;
 pub mod props;
 pub mod rogue_noise;
 
